@@ -403,8 +403,8 @@ func c01Sink(c *Ctx, m *Module) {
 	effs, chains := m.reachableEffects(roots, nil)
 	nsend := 0
 	execTable := map[string]string{
-		"telemetry.startChild":           "re-executes this program with fixed arguments; counter data reaches it only through the crash pipe (C14)",
-		"internal/configstore.Download":  "go mod download of the constant config module; arguments are the module path and version",
+		"telemetry.startChild":          "re-executes this program with fixed arguments; counter data reaches it only through the crash pipe (C14)",
+		"internal/configstore.Download": "go mod download of the constant config module; arguments are the module path and version",
 	}
 	for _, e := range effs {
 		switch e.Kind {
